@@ -3,6 +3,8 @@ use crate::engine::{Replayer, Run};
 
 pub mod c01;
 pub mod common;
+pub mod dec;
+pub mod stateprops;
 pub mod enc;
 pub mod encprops;
 pub mod c17;
@@ -19,6 +21,10 @@ pub const ALL: &[(&str, Runner, Replayer)] = &[
     ("C06", encprops::run_c06, encprops::replay_c06),
     ("C07", encprops::run_c07, encprops::replay_c07),
     ("C08", encprops::run_c08, encprops::replay_c08),
+    ("C12", stateprops::run_c12, stateprops::replay_c12),
+    ("C13", stateprops::run_c13, stateprops::replay_c13),
+    ("C14", stateprops::run_c14, stateprops::replay_c14),
+    ("C15", stateprops::run_c15, stateprops::replay_c15),
     ("C16", encprops::run_c16, encprops::replay_c16),
     ("C17", c17::run, c17::replay),
     ("C18", c18::run, c18::replay),
